@@ -2,6 +2,7 @@ package cfgh
 
 import (
 	"fmt"
+	"strings"
 
 	"pgregory.net/rapid"
 )
@@ -368,6 +369,18 @@ func Catalogue() []Edit {
 			rs[0].URL += "/edited"
 			return true
 		})
+		add(prefix+"/url-user", func(s *Spec, t *rapid.T) bool {
+			rs := get(s)
+			if len(rs) == 0 {
+				return false
+			}
+			if strings.Contains(rs[0].URL, "@") {
+				rs[0].URL = strings.Replace(rs[0].URL, "://", "://x", 1)
+			} else {
+				rs[0].URL = strings.Replace(rs[0].URL, "://", "://tenant-b@", 1)
+			}
+			return true
+		})
 		add(prefix+"/remote_timeout", func(s *Spec, t *rapid.T) bool {
 			rs := get(s)
 			if len(rs) == 0 {
@@ -464,6 +477,14 @@ func Catalogue() []Edit {
 	add("alerting/alertmanager/secret", func(s *Spec, t *rapid.T) bool {
 		for i := range s.AMs {
 			if editAuth(&s.AMs[i].Auth) {
+				return true
+			}
+		}
+		return false
+	})
+	add("alerting/alertmanager/relabel/regex", func(s *Spec, t *rapid.T) bool {
+		for i := range s.AMs {
+			if len(s.AMs[i].Relabel) > 0 && editRelabel(s.AMs[i].Relabel, t, "regex") {
 				return true
 			}
 		}
